@@ -399,7 +399,18 @@ pub fn run(ctx: &Ctx) -> Report {
     let nhist = ctx.vol(12_000, 1_500_000);
     let nnorm = ctx.vol(1000, 50_000);
     let reps = if ctx.quick() { 20 } else { 1000 };
-    let stats = par_run(ctx, TAG, nprod + nshape + nhist + nnorm, |u, rng, st| {
+    // long shapes (9..40 rows/columns, every residue modulo 4, 8 and 16 on both sides): blocked or unrolled loops with a
+    // remainder must not depend on the size being small
+    let nbig = ctx.vol(320, 20_000);
+    let stats = par_run(ctx, TAG, nprod + nshape + nhist + nnorm + nbig, |u, rng, st| {
+        if u >= nprod + nshape + nhist + nnorm {
+            let (r, c) = (rng.usize(9, 40), rng.usize(9, 40));
+            shape_ops(st, rng, r, c);
+            let (r, k, c) = (rng.usize(9, 24), rng.usize(9, 24), rng.usize(9, 24));
+            products(st, rng, r, k, c);
+            st.count("long-shape-units(9..40)");
+            return;
+        }
         if u < nprod { let (r, k, c) = ((u / 81) as usize, ((u / 9) % 9) as usize, (u % 9) as usize); for _ in 0..reps { products(st, rng, r, k, c); } }
         else if u < nprod + nshape { let v = u - nprod; for _ in 0..reps { shape_ops(st, rng, (v / 9) as usize, (v % 9) as usize); } }
         else if u < nprod + nshape + nhist { for _ in 0..10 { history(st, rng); } }
